@@ -16,73 +16,75 @@ Module PCP.
   Definition b2n (b : bool) : nat := if b then 1 else 0.
   Lemma b2n_le1 b : b2n b <= 1. Proof. destruct b; cbn; lia. Qed.
 
-  (* ---- numbering of program points ---- *)
-  Definition dN (d : dpc) : nat :=
-    match d with DWait => 0 | DSel => 1 | DUnref => 2 | DNet => 3 | DSub => 4 | DErr => 5 | DTok => 6
-               | DExit => 7 | DCloseF => 8 | DDone => 9 end.
-  Definition fN (f : fpc) : nat :=
-    match f with FWait => 0 | FParseErr => 1 | FMsgs _ _ => 2 | FAck => 3 | FLimbo _ => 4 | FResub => 5
-               | FCloseM => 6 | FCloseE => 7 | FDone => 8 end.
-  Definition mN (p : smpc) : nat :=
-    match p with SMLoop => 0 | SMCloseWait => 1 | SMFlush => 2 | SMCloseNS => 3 | SMDone => 4 end.
-  Definition cN (p : scpc) : nat :=
-    match p with
-    | SCFirst => 0 | SCRange => 1 | SCUpd => 2 | SCLen => 3 | SCIdle => 4 | SCAbort => 5 | SCAbLoop => 6 | SCAbWait => 7 | SCDone => 8
-    | SCUpdClose => 10 | SCFetch => 11 | SCFeed => 12 | SCAcks => 13 | SCHandle => 14 | SCHErr _ => 15 | SCHTok => 16 | SCHClose => 17
-    | SCAbErr => 18 | SCAbTok => 19 | SCAbNErr => 20 | SCAbNTok => 21
-    end.
-  Definition rN (r : rr) : nat := match r with RNone => 0 | RTimedOut => 1 | ROOR => 2 | RRedispatch => 3 | ROther => 4 end.
+  Lemma b2n_0 b : b2n b = 0 -> b = false. Proof. destruct b; cbn; congruence. Qed.
 
-  (* indicators of the ranges used in sums *)
-  Definition dI (d : dpc) : nat := match d with DSel | DUnref | DNet | DSub | DErr | DTok => 1 | _ => 0 end.
-  Definition fI (f : fpc) : nat := match f with FLimbo _ | FResub => 1 | _ => 0 end.
-  Definition nI (p : scpc) : nat := match p with SCAbNErr | SCAbNTok => 1 | _ => 0 end.
+  (* ---- 0/1 indicators of the classes of program points the invariant speaks about ---- *)
+  Definition dI (d : dpc) : nat := match d with DSel | DUnref | DNet | DSub | DErr | DTok => 1 | _ => 0 end.  (* D owns the child *)
+  Definition dX (d : dpc) : nat := match d with DExit | DCloseF | DDone => 1 | _ => 0 end.                    (* left its loop *)
+  Definition dD (d : dpc) : nat := match d with DDone => 1 | _ => 0 end.
+  Definition dS (d : dpc) : nat := match d with DSub => 1 | _ => 0 end.
+  Definition fB (f : fpc) : nat := match f with FParseErr | FMsgs _ _ | FAck => 1 | _ => 0 end.             (* a response in hand *)
+  Definition fL (f : fpc) : nat := match f with FLimbo _ | FResub => 1 | _ => 0 end.                        (* expired hand-over *)
+  Definition fG (f : fpc) : nat := match f with FCloseM | FCloseE | FDone => 1 | _ => 0 end.                (* left its loop *)
+  Definition fE (f : fpc) : nat := match f with FCloseE | FDone => 1 | _ => 0 end.
+  Definition fD (f : fpc) : nat := match f with FDone => 1 | _ => 0 end.
+  Definition cS (p : scpc) : nat :=                                                                          (* works on its subscription *)
+    match p with SCUpdClose | SCFetch | SCFeed | SCAcks | SCHandle | SCHErr _ | SCHTok | SCHClose | SCAbErr | SCAbTok => 1 | _ => 0 end.
+  Definition cW (p : scpc) : nat := match p with SCAcks | SCHandle => 1 | _ => 0 end.
+  Definition cA (p : scpc) : nat := match p with SCAcks => 1 | _ => 0 end.
+  Definition cF (p : scpc) : nat := match p with SCFeed => 1 | _ => 0 end.
+  Definition nI (p : scpc) : nat := match p with SCAbNErr | SCAbNTok => 1 | _ => 0 end.                    (* child of a new batch, in abort *)
+  Definition m1 (p : smpc) : nat := match p with SMLoop => 0 | _ => 1 end.
+  Definition m2 (p : smpc) : nat := match p with SMLoop | SMCloseWait => 0 | _ => 1 end.
+  Definition m4 (p : smpc) : nat := match p with SMDone => 1 | _ => 0 end.
+  Definition mF (p : smpc) : nat := match p with SMFlush => 1 | _ => 0 end.
+  Definition rZ (r : rr) : nat := match r with RNone => 0 | _ => 1 end.
   Definition tI (r : rr) : nat := match r with RTimedOut => 1 | _ => 0 end.
 
-  Lemma dI_spec d : (dI d = 1 /\ 1 <= dN d <= 6) \/ (dI d = 0 /\ (dN d = 0 \/ 7 <= dN d <= 9)).
+  Lemma d_spec d : dI d + dX d <= 1 /\ dD d <= dX d /\ dS d <= dI d.
   Proof. destruct d; cbn; lia. Qed.
-  Lemma fI_spec f : (fI f = 1 /\ 4 <= fN f <= 5) \/ (fI f = 0 /\ (fN f <= 3 \/ 6 <= fN f <= 8)).
+  Lemma f_spec f : fB f + fL f + fG f <= 1 /\ fD f <= fE f /\ fE f <= fG f.
   Proof. destruct f; cbn; lia. Qed.
-  Lemma nI_spec p : (nI p = 1 /\ 20 <= cN p <= 21) \/ (nI p = 0 /\ cN p <= 19 /\ cN p <> 9).
+  Lemma c_spec p : cW p <= cS p /\ cA p <= cW p /\ cF p <= cS p /\ cF p + cW p <= 1 /\ cS p + nI p <= 1.
   Proof. destruct p; cbn; lia. Qed.
-  Lemma tI_spec r : (tI r = 1 /\ rN r = 1) \/ (tI r = 0 /\ rN r <> 1 /\ rN r <= 4).
+  Lemma m_spec p : m4 p <= m2 p /\ m2 p <= m1 p /\ m1 p <= 1 /\ mF p <= m2 p /\ mF p + m4 p <= 1.
+  Proof. destruct p; cbn; lia. Qed.
+  Lemma r_spec r : tI r <= rZ r /\ rZ r <= 1.
   Proof. destruct r; cbn; lia. Qed.
-  Lemma mN_le p : mN p <= 4. Proof. destruct p; cbn; lia. Qed.
 
-  (* SC's subscription entry is current (not the stale one left behind by an expired hand-over):
-     subs && not timed out, as a 0/1 number *)
-  Definition fresh (s : st) : nat := b2n (subs (w s)) - tI (rres s).
+  (* who owns the child: D, the trigger buffer, SM's buffer, SC's subscription map (unless the entry is the
+     stale one left behind by an expired hand-over: then F owns it), F, SC's abort loop *)
   Definition own (s : st) : nat :=
-    dI (dp s) + b2n (trig_tok (ch s)) + b2n (buf (w s)) + fresh s + fI (fp s) + nI (sc (w s)).
+    dI (dp s) + b2n (trig_tok (ch s)) + b2n (buf (w s)) + b2n (subs (w s)) + fL (fp s) + nI (sc (w s)).
 
   Record Inv (s : st) : Prop := {
     i_panic : b2n (panic s) = 0;
     (* exactly one owner, or the trigger is closed *)
-    i_own : own s + b2n (trig_closed (ch s)) = 1;
+    i_own : own s + b2n (trig_closed (ch s)) = 1 + tI (rres s);
     (* SC works on its subscription only while it has it *)
-    i_scsubs : 10 <= cN (sc (w s)) <= 19 -> b2n (subs (w s)) = 1;
+    i_scsubs : cS (sc (w s)) <= b2n (subs (w s));
     (* child.responseResult is set only while SC waits for / handles the hand-over *)
-    i_rres : rN (rres s) <> 0 -> 13 <= cN (sc (w s)) <= 14 /\ b2n (subs (w s)) = 1;
-    (* a response in the feeder's hands: SC is in acks.Wait() *)
-    i_busy : (b2n (feed_full (ch s)) = 1 \/ 1 <= fN (fp s) <= 3) ->
-             cN (sc (w s)) = 13 /\ acks (w s) = 1 /\ rN (rres s) <> 1;
-    i_acks0 : b2n (feed_full (ch s)) = 0 -> (fN (fp s) = 0 \/ 4 <= fN (fp s)) -> cN (sc (w s)) <> 12 -> acks (w s) = 0;
-    i_feed : cN (sc (w s)) = 12 -> acks (w s) = 1 /\ b2n (feed_full (ch s)) = 0 /\ (fN (fp s) = 0 \/ 4 <= fN (fp s)) /\ rN (rres s) = 0;
-    i_limbo : 4 <= fN (fp s) <= 5 -> b2n (feed_full (ch s)) = 0;
+    i_rres : rZ (rres s) <= cW (sc (w s));
+    (* a response in the feeder's hands: SC is in acks.Wait(), acks = 1, no time-out recorded *)
+    i_busy : b2n (feed_full (ch s)) + fB (fp s) <= cA (sc (w s)) /\ b2n (feed_full (ch s)) + fB (fp s) + tI (rres s) <= 1;
+    i_acks : acks (w s) = b2n (feed_full (ch s)) + fB (fp s) + cF (sc (w s));
+    i_feed : cF (sc (w s)) + rZ (rres s) <= 1;
+    i_limbo : fL (fp s) + b2n (feed_full (ch s)) <= 1 /\ tI (rres s) <= fL (fp s) + b2n (buf (w s));
     (* the dispatcher's exit and what follows it *)
-    i_dexit : 7 <= dN (dp s) -> b2n (trig_closed (ch s)) = 1 /\ b2n (trig_tok (ch s)) = 0;
-    i_fclosed : b2n (feed_closed (ch s)) = 1 -> dN (dp s) = 9;
-    i_fgone : 6 <= fN (fp s) -> b2n (feed_closed (ch s)) = 1 /\ b2n (feed_full (ch s)) = 0;
-    i_msgs : b2n (closed (msgs (ch s))) = 1 -> 7 <= fN (fp s);
-    i_errs : b2n (closed (errs (ch s))) = 1 -> fN (fp s) = 8;
+    i_dexit : dX (dp s) <= b2n (trig_closed (ch s)) /\ dX (dp s) + b2n (trig_tok (ch s)) <= 1;
+    i_fclosed : b2n (feed_closed (ch s)) <= dD (dp s);
+    i_fgone : fG (fp s) <= b2n (feed_closed (ch s)) /\ fG (fp s) + b2n (feed_full (ch s)) <= 1;
+    i_msgs : b2n (closed (msgs (ch s))) <= fE (fp s);
+    i_errs : b2n (closed (errs (ch s))) <= fD (fp s);
     (* the reference on the worker *)
-    i_ref1 : b2n (has_broker s) = 1 -> refs (w s) = 1 /\ b2n (in_closed (w s)) = 0;
-    i_ref0 : b2n (has_broker s) = 0 ->
-             dI (dp s) + b2n (trig_tok (ch s)) + b2n (trig_closed (ch s)) = 1 /\ dN (dp s) <> 4;
+    i_ref : refs (w s) = b2n (has_broker s) /\ b2n (has_broker s) + b2n (in_closed (w s)) = 1;
+    i_ref0 : 1 <= b2n (has_broker s) + dI (dp s) + b2n (trig_tok (ch s)) + b2n (trig_closed (ch s)) /\
+             dS (dp s) <= b2n (has_broker s);
     (* the manager's own closes *)
-    i_wait : b2n (wait_closed (w s)) = 1 -> 2 <= mN (sm (w s));
-    i_ns : b2n (ns_closed (w s)) = 1 -> mN (sm (w s)) = 4;
-    i_smloop : 1 <= mN (sm (w s)) -> b2n (in_closed (w s)) = 1;
+    i_wait : b2n (wait_closed (w s)) <= m2 (sm (w s));
+    i_ns : b2n (ns_closed (w s)) <= m4 (sm (w s));
+    i_smloop : m1 (sm (w s)) <= b2n (in_closed (w s));
+    i_flush : mF (sm (w s)) <= b2n (buf (w s));
     (* dying is closed under closeOnce *)
     i_once : b2n (dying (ch s)) = b2n (once (ch s))
   }.
@@ -92,7 +94,7 @@ Module PCP.
 
   Ltac unf := unfold mk, with_ch, with_dp, with_fp, with_w, with_ap, with_rr, with_panic,
                      c_dying, c_trig, c_feed, c_msgs, c_errs, c_seen,
-                     w_sm, w_sc, w_buf, w_subs, w_acks, w_waitc, w_nsc, wk_fresh, own, fresh in *.
+                     w_sm, w_sc, w_buf, w_subs, w_acks, w_waitc, w_nsc, wk_fresh, own in *.
 
   (* rewrite with the equations [proj s = constant] produced by the case analysis of the step *)
   Ltac rew_eqs s :=
@@ -105,22 +107,42 @@ Module PCP.
     end.
 
   Ltac destr_inv I :=
-    destruct I as [Ipanic Iown Iscsubs Irres Ibusy Iacks0 Ifeed Ilimbo Idexit Ifclosed Ifgone Imsgs Ierrs Iref1 Iref0 Iwait Ins Ismloop Ionce].
+    destruct I as [Ipanic Iown Iscsubs Irres Ibusy Iacks Ifeed Ilimbo Idexit Ifclosed Ifgone Imsgs Ierrs Iref Iref0 Iwait Ins Ismloop Iflush Ionce].
 
   (* facts about the numbers of the program points that are still unknown *)
   Ltac pose_specs s :=
-    pose proof (dI_spec (dp s)); pose proof (fI_spec (fp s)); pose proof (nI_spec (sc (w s)));
-    pose proof (tI_spec (rres s)); pose proof (mN_le (sm (w s)));
+    pose proof (d_spec (dp s)); pose proof (f_spec (fp s)); pose proof (c_spec (sc (w s)));
+    pose proof (m_spec (sm (w s))); pose proof (r_spec (rres s));
     pose proof (b2n_le1 (trig_tok (ch s))); pose proof (b2n_le1 (trig_closed (ch s)));
     pose proof (b2n_le1 (buf (w s))); pose proof (b2n_le1 (subs (w s)));
     pose proof (b2n_le1 (feed_full (ch s))); pose proof (b2n_le1 (feed_closed (ch s)));
     pose proof (b2n_le1 (has_broker s)); pose proof (b2n_le1 (in_closed (w s)));
     pose proof (b2n_le1 (wait_closed (w s))); pose proof (b2n_le1 (ns_closed (w s)));
     pose proof (b2n_le1 (closed (msgs (ch s)))); pose proof (b2n_le1 (closed (errs (ch s))));
-    pose proof (b2n_le1 (panic s)); pose proof (b2n_le1 (dying (ch s))); pose proof (b2n_le1 (once (ch s))).
+    pose proof (b2n_le1 (dying (ch s))); pose proof (b2n_le1 (once (ch s))).
+
+  Ltac pair_cases :=
+    repeat match goal with
+    | H : None = Some _ |- _ => discriminate H
+    | H : (match ?x with _ => _ end) = (_, _) |- _ => destruct x eqn:?
+    | H : (match ?x with _ => _ end) = Some _ |- _ => destruct x eqn:?
+    | H : (match ?x with _ => _ end) = true |- _ => destruct x eqn:?; try discriminate H
+    | H : Some _ = Some _ |- _ => injection H as ?; subst
+    | H : (_, _) = (_, _) |- _ => injection H as ? ?; subst
+    end.
+
+  Ltac bool_goal :=
+    repeat match goal with
+    | |- context [b2n (?a || ?b)] => destruct a eqn:?; destruct b eqn:?; cbn in *
+    | |- context [b2n (?a && ?b)] => destruct a eqn:?; destruct b eqn:?; cbn in *
+    | |- context [b2n (?a =? ?b)] => destruct (a =? b) eqn:?; bool_hyps; cbn in *
+    end.
 
   Ltac go s H I :=
     scbn H; unfold send_err, send_msg, put_token, w_unref, parse_ok, draining in H;
-    step_cases H; bool_hyps; pose_specs s; destr_inv I; unf; rew_eqs s;
-    (constructor; unf; cbn -[Nat.sub] in * ); rew_eqs s; cbn -[Nat.sub] in *; try lia.
+    step_cases H; pair_cases; bool_hyps; pair_cases; bool_hyps; pose_specs s; destr_inv I;
+    match goal with Hpn : b2n (panic _) = 0 |- _ =>
+      let Hp := fresh "Hp" in pose proof (b2n_0 _ Hpn) as Hp; try rewrite Hp in * end;
+    unf; rew_eqs s;
+    (constructor; unf; cbn in * ); rew_eqs s; cbn in *; try lia; bool_goal; try lia.
 End PCP.
